@@ -154,3 +154,12 @@ Theorem C13_source_freshness :
   (forall h date, src_heuristic_freshness h date = heuristic_freshness h date).
 Proof. split; [exact tie_calculate_freshness|split; [exact tie_current_age|exact tie_heuristic_freshness]]. Qed.
 Print Assumptions C13_source_freshness.
+
+(* the saturating addition used for ages and windows is the one of internal/freshness.go on this run (Generated/SrcHelpers.v),
+   on the non-negative durations it is documented for *)
+From HC.Generated Require Import SrcHelpers.
+From HC.Proofs Require Import TieHelpers.
+Theorem C13_source_saturating_add :
+  forall a b, 0 <= a <= max64 -> 0 <= b <= max64 -> src_saturating_add a b = go_sat_add a b.
+Proof. exact tie_saturating_add. Qed.
+Print Assumptions C13_source_saturating_add.
